@@ -1,16 +1,45 @@
 (* C07 -- all message memory comes from, and returns to, the caller's allocator.
-   The discipline is a property of run-time traces: which blocks the parser requests from the allocator it
-   was given, and which it hands back.  The value-level model of the parser (Impl/Unpack.v) has no heap,
-   so the property is carried the other way round: the discipline is stated declaratively over the
-   sequence of allocator events (Proofs/LedgerSound.v, record [discipline]), a monitor for it is defined
-   in Gallina (Impl/Ledger.v), the monitor is PROVED sound (a trace it accepts satisfies the discipline),
-   extracted, and run on the event traces of the real protobuf_c_message_unpack / free_unpacked under a
-   recording allocator (harness/c/impl_driver.c, op UNPACKT) for generated inputs.  What is proved is
-   therefore the monitor, not the parser: partial, see DESIGN.md section 6 C07. *)
+   Proved on the allocation-level model of the parser (Impl/Heap.v: every do_alloc / do_free of
+   protobuf_c_message_unpack, merge_messages and protobuf_c_message_free_unpacked, in the order the C code performs
+   them; heap pointers carry the number of the allocator request that produced the block; comparisons with the static
+   default values are modelled, a default handed to free is an event EvX):
+   for every generator-producible environment (env_ok), every message type, every input shorter than 2^31 -- accepted
+   or rejected, with merging, oneof replacement, any number of field occurrences (slabs), more than 128 fields
+   (bitmap), unknown fields -- the sequence of allocator events obeys the discipline `replay` (Impl/HeapInv.v: no
+   block granted twice, nothing freed that is not a live block -- no double free, no foreign pointer --, no static
+   default freed); when parsing fails nothing is outstanding at return; when it succeeds the live blocks are exactly
+   the blocks the message owns, and free_unpacked hands each of them back once, leaving nothing.  The statement is for
+   an arbitrary refusal plan; C07 proper is the instance "no request refused", C08 the general one.
+   The model is tied to protobuf-c.c on every run: the check compares its event sequence (request numbers and sizes)
+   with the one the real library produces through a recording allocator, token by token.
+   Also kept: the trace monitor of the first version (Impl/Ledger.v), proved sound, which judges the REAL traces. *)
 From Coq Require Import ZArith List Bool.
-From PBC Require Import Impl.Ledger Proofs.LedgerSound.
+From PBC Require Import Impl.Desc Impl.Mem Impl.Canon Impl.Ledger Impl.Heap Impl.HeapInv Proofs.LedgerSound Proofs.HeapSafe Proofs.Examples.
+Local Open Scope Z_scope.
 Import ListNotations.
 
+(* ---- the parser itself (allocation-level model) *)
+Theorem C07_every_block_is_returned_exactly_once : forall (E : env) (szmsg : nat -> Z) (d : nat) (data : list Z),
+  env_ok E = true -> Forall (fun b => 0 <= b < 256) data -> Mem.zlen data < 2147483648 ->
+  let r := h_unpack E (fun _ => false) szmsg (S (length data)) d data (mkH 0 []) in
+  match fst r with
+  | None => live_of (snd r) = Some []                                        (* rejected: everything already returned *)
+  | Some m => lives (snd r) (owned m) /\                                     (* accepted: live = what the message owns *)
+              live_of (snd (h_free E m (snd r))) = Some []                   (* and freeing it returns all of it *)
+  end.
+Proof. intros E szmsg d data. exact (heap_trace_discipline E (fun _ => false) szmsg d data). Qed.
+Print Assumptions C07_every_block_is_returned_exactly_once.
+
+(* both outcomes occur on the example environment: an accepted input (3 blocks, all returned by free_unpacked) and a
+   rejected one (the message block requested and returned before the call returns) *)
+Example C07_nonvacuous :
+  (let r := h_run ex_env (fun _ => false) (fun _ => 152) 0 [8; 150; 1; 26; 2; 1; 2; 58; 2; 8; 1] (mkH 0 []) in
+   fst r = true /\ (length (h_trace (snd r)) = 6)%nat /\ live_of (snd r) = Some []) /\
+  (let r := h_run ex_env (fun _ => false) (fun _ => 152) 0 [8; 150; 1; 26; 9; 1] (mkH 0 []) in
+   fst r = false /\ h_trace (snd r) = [EvF 0; EvA 0 152] /\ live_of (snd r) = Some []).
+Proof. vm_compute. repeat split. Qed.
+
+(* ---- the monitor that judges the real traces *)
 Theorem C07_monitor_sound_partial : forall evs, monitor evs = true -> discipline evs.
 Proof. exact monitor_sound. Qed.
 Print Assumptions C07_monitor_sound_partial.
